@@ -15,7 +15,7 @@ STARTUPS = ["complete", "failed", "failed-keeps-running", "raise", "raise-after-
             "return-after-recv", "return-after-complete", "hang", "unknown"]
 GATED_STARTUPS = ["complete", "failed", "failed-keeps-running", "raise-after-recv", "return-after-recv",
                   "return-after-complete", "unknown"]  # behaviours that first receive lifespan.startup
-SHUTDOWNS = ["complete", "failed", "raise", "hang", "return"]
+SHUTDOWNS = ["complete", "complete-then-recv", "failed", "raise", "hang", "return"]
 
 QUICK = [["start", 200, 2], ["body", 2, False]]
 
@@ -275,6 +275,12 @@ def gen_c15(tier: str, rng: random.Random) -> Iterator[Dict[str, Any]]:
     for short_ms in ([2900, 3100] + ([1, 2999, 3001, 2000] if thorough else [])):
         for source in ("callable", "max_requests"):
             yield c15_script(("S", "I"), source, "sleep", "none", short_ms=short_ms)
+    # a request that ends late in the grace period with a pipelined request parked behind it: on the
+    # asyncio worker the wait for the connection and the graceful wait add up
+    for short_ms in ([2500] + ([1500, 2900] if thorough else [])):
+        for source in ("callable", "max_requests"):
+            yield c15_script(("S",), source, "sleep", "request", short_ms=short_ms)
+            yield c15_script(("P", "S"), source, "sleep", "all", sd="raise", short_ms=short_ms)
     # several clients finishing at different times
     if thorough:
         for _ in range(60):
